@@ -59,15 +59,16 @@ Proof.
   destruct Hb as (B1 & B2 & B3 & B4 & B5). rewrite X1, X2, X3, X4 in *.
   repeat apply conj; try (unfold n in *; lia).
   intros nn c i j Hc Hi Hj. rewrite B5 by (unfold n in *; lia).
-  rewrite syn_synL.
+  rewrite syn_synL. unfold synL.
   (* the coefficient lines are the analysis of the extended signal *)
   set (X := ext_of Op mode (tW x) (fun q => tf x nn c i q)).
   rewrite (sumZ_ext Op 0 n _ (fun k => zx Op L g0 (j + (L-2) - 2*k) *r anaL Op L d0 X k +r zx Op L g1 (j + (L-2) - 2*k) *r anaL Op L d1 X k)).
   2:{ intros k Hk. unfold x0, x1. rewrite !force_eq. unfold t_chmap. cbn [tf].
-      replace (2*k) with (2*k) by lia.
-      rewrite (A5 nn c 0 i k) by lia. replace (2*c + 0) with (2*c) in * by lia.
-      rewrite (A5 nn c 1 i k) by lia. unfold dsel. cbn [Z.eqb]. change (0 mod 2 =? 0) with true. change (1 mod 2 =? 0) with false. cbv iota.
-      rewrite !pywt_anaL. reflexivity. }
+      pose proof (A5 nn c 0 i k ltac:(lia) ltac:(lia) ltac:(lia)) as H0.
+      pose proof (A5 nn c 1 i k ltac:(lia) ltac:(lia) ltac:(lia)) as H1.
+      replace (2*c + 0) with (2*c) in H0 by lia. rewrite H0, H1.
+      unfold dsel. change (0 mod 2 =? 0) with true. change (1 mod 2 =? 0) with false. cbv iota.
+      rewrite !pywt_anaL. fold X. ring. }
   change (sumZ 0 n (fun k => zx Op L g0 (j + (L-2) - 2*k) *r anaL Op L d0 X k +r zx Op L g1 (j + (L-2) - 2*k) *r anaL Op L d1 X k))
     with (synL Op L g0 g1 0 n (anaL Op L d0 X) (anaL Op L d1 X) j).
   rewrite (line_pr_exact Op Rth L d0 d1 g0 g1 ltac:(lia) 0 n X j).
@@ -77,3 +78,122 @@ Proof.
   - lia.
 Qed.
 End S.
+
+(* ---------------- multi-level: DWT1DInverse (DWT1DForward x) = x on the extent, every J ---------------- *)
+Section Multi.
+Context {R:Type} (Op:Ops R) (Rth: RingOk Op).
+Add Ring Rr2 : Rth.
+Notation ten := (@ten R).
+Notation sumZ := (sumZ Op).
+Infix "+r" := (radd Op) (at level 50, left associativity).
+Infix "*r" := (rmul Op) (at level 40, left associativity).
+
+(* one synthesis level on coefficient tensors that AGREE with the analysis of x on their extent (the running lowpass of
+   the inverse is such a tensor: it equals the forward lowpass on its first n samples) *)
+Theorem pr_level_1d_ext (x lo hi:ten) L d0 d1 g0 g1 mode :
+  2 <= L -> 1 <= tW x -> 1 <= tH x -> 0 < tC x -> level_ok mode L (tW x) -> (mode = M_REFLECT -> 2 <= tW x) ->
+  PRcond Op L d0 d1 g0 g1 ->
+  let n := (tW x + L - 1)/2 in
+  tN lo = tN x -> tC lo = tC x -> tH lo = tH x -> tW lo = n -> same_shape lo hi = true ->
+  (forall nn c i k, 0 <= c < tC x -> 0 <= i < tH x -> 0 <= k < n ->
+     tf lo nn c i k = pywt_dwt Op mode L (tW x) d0 (fun q => tf x nn c i q) k /\
+     tf hi nn c i k = pywt_dwt Op mode L (tW x) d1 (fun q => tf x nn c i q) k) ->
+  is_ok (SFB1D_fwd Op lo hi L g0 g1 mode) (fun y =>
+      tN y = tN x /\ tC y = tC x /\ tH y = tH x /\ tW x <= tW y <= tW x + 1 /\
+      forall nn c i j, 0 <= c < tC x -> 0 <= i < tH x -> 0 <= j < tW x -> tf y nn c i j = tf x nn c i j).
+Proof.
+  intros HL HW HH HC Hm Hr2 HPR n X1 X2 X3 X4 Hss Hval.
+  assert (Hnm: nonper_mode mode).
+  { destruct Hm as [H|[H|[H|(H & _)]]]; subst mode; unfold nonper_mode; tauto. }
+  unfold SFB1D_fwd.
+  pose proof (sfb1d_nonper_row Op Rth lo hi L g0 g1 mode Hnm Hss HL ltac:(lia) ltac:(rewrite X4; unfold n; lia)) as Hb.
+  destruct (sfb1d Op lo hi L g0 g1 mode 3) as [y|]; [|contradiction]. cbn [is_ok] in *.
+  destruct Hb as (B1 & B2 & B3 & B4 & B5). rewrite X1, X2, X3, X4 in *.
+  repeat apply conj; try (unfold n in *; lia).
+  intros nn c i j Hc Hi Hj. rewrite B5 by (unfold n in *; lia).
+  rewrite (syn_synL Op Rth). unfold synL.
+  set (X := ext_of Op mode (tW x) (fun q => tf x nn c i q)).
+  rewrite (sumZ_ext Op 0 n _ (fun k => zx Op L g0 (j + (L-2) - 2*k) *r anaL Op L d0 X k +r zx Op L g1 (j + (L-2) - 2*k) *r anaL Op L d1 X k)).
+  2:{ intros k Hk. destruct (Hval nn c i k Hc Hi Hk) as (E0 & E1). rewrite E0, E1. rewrite !pywt_anaL. fold X. ring. }
+  change (sumZ 0 n (fun k => zx Op L g0 (j + (L-2) - 2*k) *r anaL Op L d0 X k +r zx Op L g1 (j + (L-2) - 2*k) *r anaL Op L d1 X k))
+    with (synL Op L g0 g1 0 n (anaL Op L d0 X) (anaL Op L d1 X) j).
+  rewrite (line_pr_exact Op Rth L d0 d1 g0 g1 ltac:(lia) 0 n X j).
+  - unfold X. apply ext_of_in; [lia | exact Hr2].
+  - intros d Hd. apply (PRcond_at Op Rth L d0 d1 g0 g1 0 n j d ltac:(lia) HPR Hd); [|unfold n; lia].
+    intros k Hk. unfold n in *. lia.
+  - lia.
+Qed.
+
+Lemma inv_rev_app (x0:ten) l1 l2 L g0 g1 mode :
+  DWT1DInverse_rev Op x0 (l1 ++ l2) L g0 g1 mode
+  = bind (DWT1DInverse_rev Op x0 l1 L g0 g1 mode) (fun z => DWT1DInverse_rev Op z l2 L g0 g1 mode).
+Proof.
+  revert x0. induction l1 as [|h l1 IH]; intros x0; cbn [app DWT1DInverse_rev bind]; [reflexivity|].
+  destruct (SFB1D_fwd Op _ _ L g0 g1 mode) as [y|e]; cbn [bind]; [apply IH | reflexivity].
+Qed.
+
+(* every level of a J-level transform of a signal of width W is admissible (only reflect can refuse) *)
+Fixpoint levels_ok (J:nat) (mode L W:Z) : Prop :=
+  match J with O => True | S J' => 1 <= W /\ level_ok mode L W /\ (mode = M_REFLECT -> 2 <= W) /\ levels_ok J' mode L ((W + L - 1)/2) end.
+
+Theorem pr_multilevel_1d (J:nat) : forall (x:ten) L d0 d1 g0 g1 mode,
+  2 <= L -> 1 <= tH x -> 0 < tC x -> 1 <= tW x -> levels_ok J mode L (tW x) -> PRcond Op L d0 d1 g0 g1 ->
+  is_ok (DWT1DForward Op J x L (rev_filt L d0) (rev_filt L d1) mode) (fun r =>
+    is_ok (DWT1DInverse Op (fst r) (map Some (snd r)) L g0 g1 mode) (fun y =>
+      tN y = tN x /\ tC y = tC x /\ tH y = tH x /\ tW x <= tW y <= tW x + 1 /\
+      forall nn c i j, 0 <= c < tC x -> 0 <= i < tH x -> 0 <= j < tW x -> tf y nn c i j = tf x nn c i j)).
+Proof.
+  induction J as [|J IH]; intros x L d0 d1 g0 g1 mode HL HH HC HW Hlv HPR.
+  - cbn [DWT1DForward is_ok fst snd map]. unfold DWT1DInverse. cbn [rev DWT1DInverse_rev is_ok]. repeat split; try lia.
+  - destruct Hlv as (HW1 & Hm & Hr2 & Hrest).
+    cbn [DWT1DForward].
+    (* first analysis level *)
+    pose proof (afb1d_row_pywt Op Rth x L d0 d1 mode HL HW HH HC Hm Hr2) as Ha.
+    unfold AFB1D_fwd. destruct (afb1d Op x L _ _ mode 3) as [lohi|]; [|contradiction]. cbn [is_ok bind] in *.
+    destruct Ha as (A1 & A2 & A3 & A4 & A5).
+    set (n := (tW x + L - 1)/2) in *.
+    assert (Hrl0: range_len 0 (tC lohi) 2 = tC x) by (unfold range_len; rewrite A2; replace (2 * tC x <=? 0) with false by lia; lia).
+    assert (Hrl1: range_len (Z.min 1 (tC lohi)) (tC lohi) 2 = tC x).
+    { unfold range_len. rewrite A2. replace (Z.min 1 (2 * tC x)) with 1 by lia. replace (2 * tC x <=? 1) with false by lia. lia. }
+    rewrite Hrl0, Hrl1.
+    set (x0 := force Op (t_chmap (tC x) (fun c => 2*c) lohi)).
+    set (x1 := force Op (t_chmap (tC x) (fun c => 2*c+1) lohi)).
+    assert (Hx0: tN x0 = tN x /\ tC x0 = tC x /\ tH x0 = tH x /\ tW x0 = n) by (unfold x0; cbn [force t_chmap tN tC tH tW]; repeat split; lia).
+    assert (Hx1: tN x1 = tN x /\ tC x1 = tC x /\ tH x1 = tH x /\ tW x1 = n) by (unfold x1; cbn [force t_chmap tN tC tH tW]; repeat split; lia).
+    destruct Hx0 as (P1 & P2 & P3 & P4). destruct Hx1 as (Q1 & Q2 & Q3 & Q4).
+    (* the remaining levels act on x0 *)
+    assert (Hn1: 1 <= n) by (unfold n; lia).
+    specialize (IH x0 L d0 d1 g0 g1 mode HL ltac:(lia) ltac:(lia) ltac:(lia) ltac:(rewrite P4; exact Hrest) HPR).
+    destruct (DWT1DForward Op J x0 L _ _ mode) as [[yl yh]|]; [|contradiction]. cbn [is_ok bind fst snd] in *.
+    unfold DWT1DInverse in *. cbn [map rev]. rewrite inv_rev_app.
+    destruct (DWT1DInverse_rev Op yl (rev (map Some yh)) L g0 g1 mode) as [z|]; [|contradiction]. cbn [is_ok bind] in *.
+    destruct IH as (Z1 & Z2 & Z3 & Z4 & Z5). rewrite P1, P2, P3, P4 in *.
+    (* last synthesis level: trim, then reconstruct *)
+    cbn [DWT1DInverse_rev]. rewrite Q4.
+    set (z' := if n <? tW z then t_pyslice 3 0 (-1) z else z).
+    assert (Hz': tN z' = tN x /\ tC z' = tC x /\ tH z' = tH x /\ tW z' = n /\
+                 forall nn c i k, 0 <= k < n -> tf z' nn c i k = tf z nn c i k).
+    { unfold z'. destruct (n <? tW z) eqn:E.
+      - unfold t_pyslice, t_slice, t_gather, dlen, pyclip, range_len. change (3 =? 2) with false. cbv iota.
+        change (0 <? 0) with false. cbv iota. replace (-1 <? 0) with true by lia.
+        replace (Z.min (tW z) 0) with 0 by lia. replace (Z.max 0 (tW z + -1)) with (tW z - 1) by lia.
+        replace (tW z - 1 <=? 0) with false by lia. cbn [tN tC tH tW tf].
+        repeat apply conj; try lia. intros nn c i k Hk. f_equal. lia.
+      - repeat apply conj; try lia. intros; reflexivity. }
+    destruct Hz' as (W1 & W2 & W3 & W4 & W5).
+    assert (Hss: same_shape z' x1 = true) by (unfold same_shape; rewrite W1, W2, W3, W4, Q1, Q2, Q3, Q4; rewrite !Z.eqb_refl; reflexivity).
+    pose proof (pr_level_1d_ext x z' x1 L d0 d1 g0 g1 mode HL HW HH HC Hm Hr2 HPR W1 W2 W3 W4 Hss) as Hfin.
+    cbv zeta in Hfin. fold n in Hfin.
+    assert (Hval: forall nn c i k, 0 <= c < tC x -> 0 <= i < tH x -> 0 <= k < n ->
+       tf z' nn c i k = pywt_dwt Op mode L (tW x) d0 (fun q => tf x nn c i q) k /\
+       tf x1 nn c i k = pywt_dwt Op mode L (tW x) d1 (fun q => tf x nn c i q) k).
+    { intros nn c i k Hc Hi Hk. split.
+      - rewrite W5 by lia. rewrite Z5 by lia. unfold x0. rewrite force_eq. unfold t_chmap. cbn [tf].
+        pose proof (A5 nn c 0 i k ltac:(lia) ltac:(lia) ltac:(lia)) as H0. replace (2*c+0) with (2*c) in H0 by lia.
+        rewrite H0. unfold dsel. change (0 mod 2 =? 0) with true. reflexivity.
+      - unfold x1. rewrite force_eq. unfold t_chmap. cbn [tf].
+        rewrite (A5 nn c 1 i k) by lia. unfold dsel. change (1 mod 2 =? 0) with false. reflexivity. }
+    specialize (Hfin Hval).
+    destruct (SFB1D_fwd Op z' x1 L g0 g1 mode) as [y|]; [|contradiction]. cbn [is_ok DWT1DInverse_rev] in *. exact Hfin.
+Qed.
+End Multi.
